@@ -6,9 +6,9 @@ K = "known"
 F = "fixed"
 findings = [
  # ---- known, not repaired -------------------------------------------------------------------------------------------------
- dict(status=K, property="C04", key="C04.R1|connection:BitField.insert|nbits=32 cell=older than window",
+ dict(status=K, property="C04", key="C04.R1|connection:BitField.insert|bitfield_pkt nbits=32 cell=older than window",
       what="BitField.insert (packet window, 32 bits) silently accepts a sequence number older than the window: a datagram replayed after more than 32 newer datagrams is not recognised as a duplicate (connection:BitField.insert, cell diff in [33, 32767])"),
- dict(status=K, property="C04", key="C04.R1|connection:BitField.insert|nbits=256 cell=older than window",
+ dict(status=K, property="C04", key="C04.R1|connection:BitField.insert|bitfield_msg nbits=256 cell=older than window",
       what="BitField.insert (message window, 256 bits) silently accepts a message number older than the window: a message re-delivered after more than 256 newer messages is handed to the application twice (connection:BitField.insert, cell diff in [257, 32767])"),
  dict(status=K, property="C05", key="C05.R7|connection:ConnectionBase._recvAppFragment|del self.received_fragments[key]",
       what="the receiver purges an incomplete reassembly context after 1.0 + 0.5*count seconds (connection:ConnectionBase._recvAppFragment, `del self.received_fragments[key]` for expired receivers): a guaranteed fragmented message one of whose fragments is lost twice is silently lost when another fragment arrives meanwhile (probe: findings/fragment_expiry_probe.py)"),
